@@ -9,7 +9,7 @@ sys.path.insert(0, os.path.join(os.path.dirname(os.path.abspath(__file__)), ".."
 import yv, scangen as sg
 from checks import func, scan as scanmod
 
-KINDS = ["T", "F", "M", "M", "NM", "Cnt", "Ref", "NRef", "EP", "FS", "U8", "Undef", "Mod", "PeSec", "Ext", "Ext"]
+KINDS = ["T", "F", "M", "M", "NM", "Cnt", "Ref", "NRef", "EP", "FS", "U8", "Undef", "Mod", "PeSec", "Ext", "Ext", "Hash", "Hash"]
 
 
 def run_plan(variant, lines, wd, name, timeout=900):
@@ -49,14 +49,25 @@ def c09(res, tier, seed):
             for q in rules:
                 if q["cond"]["k"] == "Ext":
                     q["cond"]["a"] = r.randint(0, T + 1)
+            if sum(1 for q in rules if q["cond"]["k"] == "Hash") < 2:      # every round calls the hash module from all threads
+                rules += [scanmod.rule(rules[-1]["ns"], False, False, 0, sg.C("Hash")) for _ in range(2)]
+            files = []
+            import hashlib
+            for di in range(5):
+                f, data, sizes = scanmod.random_file(r, di + 1, 2, nblocks=1, kind=None if di else "text")
+                files.append((f, data))
+                sg.HASH_OF[di + 1] = hashlib.md5(data).hexdigest()
+            digs = [sg.HASH_OF[f["id"]] for f, d in files]
+            unique = [f["id"] for f, d in files if len(d) > 0 and digs.count(sg.HASH_OF[f["id"]]) == 1]
+            for q in rules:
+                if q["cond"]["k"] == "Hash":
+                    if unique: q["cond"]["a"] = r.choice(unique)      # true on exactly that file: every thread computes its own digests
+                    else: q["cond"] = sg.C("T")
             srcs, imports = sg.sources(rules)
             lines = ["ext i ext_t 0"]
             for ns, txt in srcs:
                 lines.append("rules %s %s" % (ns, yv.hx(txt.encode())))
-            files = []
-            for di in range(5):
-                f, data, sizes = scanmod.random_file(r, di + 1, 2, nblocks=1)
-                files.append((f, data))
+            for di, (f, data) in enumerate(files):
                 lines.append("data %d %s" % (di, yv.hx(data)))
             thread_scans = {}
             for t in range(T):
@@ -69,7 +80,7 @@ def c09(res, tier, seed):
                     extv = 0
                 for k in range(r.randint(3, 8)):
                     di = r.randrange(5)
-                    mode = r.choice(["mem", "mem", "file", "rmem"])
+                    mode = r.choice(["mem", "mem", "file", "fd", "rmem"])
                     plan = r.choice(["-", "-", "%d:a" % r.randint(0, 6), "%d:e" % r.randint(0, 6)])
                     rep = r.choice([1, 1, 2, 3])
                     lines.append("scan %d %s %s 0 %d" % (di, mode, plan, rep))
@@ -104,6 +115,9 @@ def c09(res, tier, seed):
                         mname = e["msg"]
                         x = e["ri"] + 1 if mname in ("match", "nomatch", "toomany") else (sg.MOD_IDS.get(e.get("mod"), 99) if mname in ("import", "imported") else 0)
                         tr.append({"e": "Cb", "msg": mname, "x": x, "reply": e["reply"]})
+                    elif e["e"] == "FdLost":
+                        res.violation("%d threads: yr_scanner_scan_fd closed the caller's descriptor (still open: %s, close() returned %s): with concurrent threads the number is reused while still in use" % (T, e["alive"], e["close"]),
+                                      yv.save_replay("C09", "fdlost_T%d_r%d_t%d" % (T, rd, t), {"event": e}))
                     elif e["e"] == "ScanRet":
                         tr.append({"e": "Ret", "ret": sg.ERR.get(e["ret"], "E%d" % e["ret"]), "resid": {}, "entry_point": 0, "file_size": 0, "full": False})
                 records += tr
